@@ -485,6 +485,11 @@ class ExcelCompiler:
 
         cell_or_range = self.cell_map[address]
 
+        if isinstance(value, np.generic) and not isinstance(value, float):
+            # a numpy int64, bool_ or str_ (an element of an array or of a
+            # data frame) is not a python int, bool or str
+            value = value.item()
+
         old_value = cell_or_range.value
         if old_value != value or any(  # pragma: no branch
                 # python thinks 0 == False and 1 == True, excel does not
